@@ -11,6 +11,7 @@ package expr
 import (
 	"encoding/json"
 	"errors"
+	"math"
 	"strconv"
 	"unicode/utf8"
 )
@@ -82,7 +83,7 @@ func vjFloat(dst []byte, f float64) ([]byte, error) {
 	}
 	// integer-valued floats of moderate size print as their digits
 	if f < 1e14 && f > -1e14 && f == float64(int64(f)) {
-		if f == 0 && 1/f < 0 {
+		if f == 0 && math.Signbit(f) {
 			return append(dst, "-0"...), nil
 		}
 		return strconv.AppendInt(dst, int64(f), 10), nil
@@ -659,6 +660,27 @@ func vjDecode(d []byte, vs, ve int, v any) error {
 			return errVJType
 		}
 		*t = vjUnquote(d[vs:ve])
+		return nil
+	case *any:
+		g, err := vjGeneric(d, vs, ve)
+		if err != nil {
+			return err
+		}
+		*t = g
+		return nil
+	case *[]any:
+		if vjIsNull(d, vs, ve) {
+			*t = nil
+			return nil
+		}
+		if d[vs] != '[' {
+			return errVJType
+		}
+		g, err := vjGeneric(d, vs, ve)
+		if err != nil {
+			return err
+		}
+		*t = g.([]any)
 		return nil
 	case *[]json.RawMessage:
 		if vjIsNull(d, vs, ve) {
